@@ -136,6 +136,25 @@ HISTORY = {
     'C09r4-B': ('missed', 'R-dump-atomic extended: the rename is not inside the with-block that writes the temporary file'),
     'C10r4-A': ('caught', 'R-rollback-paired (rolled-back entries) existed'),
     'C10r4-B': ('missed', 'R-apply-on-append extended: the dispatcher re-applies every membership command it executes'),
+    'C08r4-A': ('missed', 'R-record-layout extended: a size guard in front of an early exit of the reopening reader must be false for every size the writer produces'),
+    'C08r4-B': ('missed', 'new rule R-commit-index-setter-only: no journal operation calls the commit-index setter or rewrites its store'),
+    'C11r4-A': ('missed', 'R-chunk-kinds extended: first / middle chunks are answered (reply event) before the handler returns'),
+    'C11r4-B': ('caught', 'R-length-range existed'),
+    'C13r4-A': ('missed', 'R-write-fifo extended: every exit that skips the trim entails a non-positive send count'),
+    'C14r4-A': ('missed', 'new rule R-connecting-registered: CONNECTING is followed by a poller subscription (or a reset) on every normal exit'),
+    'C14r4-B': ('missed', 'new rule R-interval-clock: clock reads that feed interval tests of the transport / connection classes are monotonic'),
+    'C15r4-A': ('caught', 'R-success-guard existed'),
+    'C15r4-B': ('missed', 'R-delegate-agree extended: a wrapper named like a builtin operation hands every parameter to it, also when it is not a pure delegation'),
+    'C16r4-A': ('analysis-error', 'R-lock-guards extended: boolean returns are normalised to branches, so an isAcquired without the age test is reported instead of losing the anchor'),
+    'C16r4-B': ('caught', 'R-lock-guards existed'),
+    'C17r4-A': ('caught', 'R-id-order existed'),
+    'C17r4-B': ('caught', 'R-version-pairing existed'),
+    'C18r4-A': ('missed', 'R-payload-complete extended: the member component takes nodes from the voter set and self only'),
+    'C18r4-B': ('missed', 'new rule R-leader-change-notified: the waiting-reply table is swept before another leader is adopted'),
+    'C19r4-A': ('missed', 'R-leader-change-notified (added for C18r4-B)'),
+    'C19r4-B': ('caught', 'R-disposition existed'),
+    'C20r4-A': ('analysis-error', 'R-majority extended: a threshold cached in an attribute is evaluated, and must be recomputed wherever the voter set changes'),
+    'C20r4-B': ('caught', 'R-hasquorum existed'),
 }
 
 
